@@ -1675,10 +1675,20 @@ class SoftAbsRegularizedPositiveDefiniteMatrix(
 
     def grad_quadratic_form_inv(self, vector: NDArray) -> NDArray:
         num_j_mtx = self.eigval[:, None] - self.eigval[None, :]
-        num_j_mtx += np.diag(self.grad_softabs(self.unreg_eigval))
         den_j_mtx = self.unreg_eigval[:, None] - self.unreg_eigval[None, :]
-        np.fill_diagonal(den_j_mtx, 1)
-        j_mtx = num_j_mtx / den_j_mtx
+        # For (nearly) coincident pairs of eigenvalues, including the diagonal, use the
+        # limiting value of the divided difference of softabs, that is its derivative
+        # (evaluated at the mid-point), to avoid division by zero for repeated
+        # eigenvalues and catastrophic cancellation for nearly repeated eigenvalues
+        mid_j_mtx = (self.unreg_eigval[:, None] + self.unreg_eigval[None, :]) / 2
+        tol = np.finfo(den_j_mtx.dtype).eps ** 0.5
+        is_coincident = abs(den_j_mtx) <= tol * np.maximum(1, abs(mid_j_mtx))
+        with np.errstate(divide="ignore", invalid="ignore"):
+            j_mtx = np.where(
+                is_coincident,
+                self.grad_softabs(mid_j_mtx),
+                num_j_mtx / den_j_mtx,
+            )
         e_vct = (self.eigvec.T @ vector) / self.eigval
         return -((self.eigvec @ (np.outer(e_vct, e_vct) * j_mtx)) @ self.eigvec.T)
 
